@@ -490,6 +490,43 @@ application (which the application can have refetched explicitly) -/
 theorem rejected_sender_keeps_only_returned (q : Queue) (p : String) (i : Nat)
     (h : (q.discardSender p).senders i = some p) : q.returned i = true := discardSender_spec q p i h
 
+/-- a chunk whose `AddChunk` races with the rejection of its sender (both are critical sections
+of `s.mtx`): whether it is queued first and then discarded with the sender's other unreturned
+chunks, or refused afterwards because the sender is blacklisted, the queue ends up with the same
+recorded bytes and the same returned set — the chunk is never "queued after the rejection". -/
+theorem racing_chunk_linearisations_agree (q : Queue) (c : Chunk) (hr : q.returned c.index = false) :
+    ((q.add c).1.discardSender c.sender).files = (q.discardSender c.sender).files ∧
+    ((q.add c).1.discardSender c.sender).returned = (q.discardSender c.sender).returned ∧
+    ∀ (sy : Sy), c.sender ∈ sy.pool.blPeer → addChunk sy c = (sy, .rejectedSender) ∨ addChunk sy c = (sy, .noSync) := by
+  refine ⟨?_, ?_, ?_⟩
+  · cases hadd : q.add c with
+    | mk q1 r =>
+      by_cases hra : r = .added
+      · subst hra
+        obtain ⟨s, body, _, hs, _, _, _, hnone, rfl⟩ := add_added_spec hadd
+        funext j
+        simp only [Queue.discardSender, hs]
+        by_cases hj : j = c.index
+        · subst hj; simp [upd, hr, hnone]
+        · simp [upd, hj]
+      · rw [add_other_unchanged hadd hra]
+  · cases hadd : q.add c with
+    | mk q1 r =>
+      by_cases hra : r = .added
+      · subst hra
+        obtain ⟨s, body, _, hs, _, _, _, hnone, rfl⟩ := add_added_spec hadd
+        funext j
+        simp only [Queue.discardSender, hs]
+        by_cases hj : j = c.index
+        · subst hj; simp [upd, hr, hnone]
+        · simp [upd, hj]
+      · rw [add_other_unchanged hadd hra]
+  · intro sy hin
+    unfold addChunk
+    split
+    · left; simp [hin]
+    · right; rfl
+
 /-- **chunks_in_index_order / bytes_sender_as_recorded** (syncer): the chunk the loop body hands
 to the application is exactly the one `Next` returned — lowest unreturned index, recorded bytes,
 recorded sender — and it is the first thing journalled. -/
@@ -514,11 +551,13 @@ theorem applied_chunk_is_next (env : Env) {sy : Sy} (sc : Script) (hc : Clean sy
     split
     · obtain ⟨_, _, _, l, hl, _⟩ := a2
       exact ⟨s, body, l, hs, hlt, hr, hmin, hf, hsd, by rw [hl]; simp [log, hbody]⟩
-    · have a3 := doRefetch_ext (env := env) recent v.refetch sc1 a2.1
+    · have ar := Ext.logAll (env := env) a2.1 ((racing v).map .raceChunk) (good_race env ⟨[], [], []⟩ _)
+      have a3 := doRefetch_ext (env := env) recent v.refetch sc1 ar.1
       have a4 := doRejectSenders_ext (env := env) recent v.rejectSenders
-        (doRefetch recent v.refetch (deliverAll recent (log { sy with queue := some q' }
-          (.apply c.index (c.body.getD []) c.sender v.result v.refetch v.rejectSenders)) v.pre) sc1).2 a3.1
-      obtain ⟨_, _, _, l, hl, _⟩ := (a2.trans a3).trans a4
+        (doRefetch recent v.refetch (logAll (deliverAll recent (log { sy with queue := some q' }
+          (.apply c.index (c.body.getD []) c.sender v.result v.refetch v.rejectSenders)) v.pre)
+          ((racing v).map .raceChunk)) sc1).2 a3.1
+      obtain ⟨_, _, _, l, hl, _⟩ := ((a2.trans ar).trans a3).trans a4
       exact ⟨s, body, l, hs, hlt, hr, hmin, hf, hsd, by rw [hl]; simp [log, hbody]⟩
 
 /-! ## light-client state provider -/
@@ -596,7 +635,7 @@ example : ∀ p s, Pool.best p = some s → s ∈ p.snaps := fun _ _ h => best_m
 def exEnv : Env := { appHash := fun _ => .ok [0xa1], state := fun h => .ok ⟨h, 1⟩, commit := fun h => .ok ⟨h⟩ }
 def exScript : Script :=
   { offers := []
-    applies := [⟨.retry, [], [], []⟩]
+    applies := [{ result := .retry, refetch := [], rejectSenders := [], pre := [] }]
     infos := []
     late := [.chunk (exC 0 7 "p2"), .chunk (exC 1 8 "p2")]
     fallback := none
